@@ -17,6 +17,9 @@ for f in ["/verif/work/muttest_final.log"]:
         m = re.match(r"### (/tmp/mut/C\d+/_out/m\d)/patch.diff", l)
         if m:
             cur = m.group(1); continue
+        m = re.match(r"### /verif/seeded/(C\d+)-(m\d)/patch.diff", l)     # re-runs from the kept copies
+        if m:
+            cur = f"/tmp/mut/{m.group(1)}/_out/{m.group(2)}"; continue
         m = re.match(r"(C\d+): exit=(-?\d+) violations=(\d+)", l)
         if m and cur:
             if m.group(2) == "1":
